@@ -234,12 +234,21 @@ func scanLines(data []byte, atEOF bool) (advance int, token []byte, err error) {
 			return i + 1, data[:i], nil
 		}
 		if atEOF {
+			if len(data) >= maxLineLength {
+				return 0, nil, bufio.ErrTooLong
+			}
 			return i + 1, data[:i], nil
 		}
 		// need more data to see whether an LF follows the CR
 		return 0, nil, nil
 	}
 	if atEOF {
+		// A full buffer without a complete line is an error if more input
+		// follows.  Make sure that the same happens when the reader reports
+		// the end of input together with the last bytes.
+		if len(data) >= maxLineLength {
+			return 0, nil, bufio.ErrTooLong
+		}
 		return len(data), data, nil
 	}
 	return 0, nil, nil
